@@ -1209,10 +1209,10 @@ theorem flipBit_append (a r : Bytes) (i : Nat) (h : i / 8 < a.length) : flipBit 
   congr 3
   simp [List.getD_eq_getElem?_getD, List.getElem?_append_left h]
 
-/-- Flipping bit 5 of byte 23 (the low byte of USERNAME's length field: 0 becomes 32) of the packet encoded under
-key `[1]` with fingerprint gives a packet that decodes successfully under the same key: the announced length swallows
-exactly MESSAGE-INTEGRITY (24 bytes) and FINGERPRINT (8 bytes), the value still ends inside the body, and nothing
-requires MESSAGE-INTEGRITY to be present. -/
+/-- Flipping bit 5 of byte 23 (the low byte of USERNAME's length field: 0 becomes 32) of the Binding *indication* encoded
+under key `[1]` with fingerprint gives a packet that decodes successfully under the same key: the announced length swallows
+exactly MESSAGE-INTEGRITY (24 bytes) and FINGERPRINT (8 bytes), the value still ends inside the body, and for the class
+Indication (as for Error) `decode` does not require MESSAGE-INTEGRITY to be present. -/
 theorem bitflip_accepted (H : Bytes → Bytes) (hH : ∀ x, (H x).length = 20) :
     (decode H (flipBit (encodeRaw H bitflipMsg [1] true) 189) [1]).isSome = true := by
   have hid : bitflipMsg.id.length = 12 := by decide
@@ -1221,21 +1221,29 @@ theorem bitflip_accepted (H : Bytes → Bytes) (hH : ∀ x, (H x).length = 20) :
     rw [List.length_append, miAttr_len H hH, fpAttr_len]
   generalize miAttr H bitflipMsg [1] ++ fpAttr (framed bitflipMsg ((body bitflipMsg).length + 32) ++ miAttr H bitflipMsg [1]) = R at hlenR
   have hP : framed bitflipMsg ((body bitflipMsg).length + 32) =
-      [0, 1, 0, 36, 0x21, 0x12, 0xa4, 0x42, 0, 0, 0, 0, 0, 0, 0, 0, 0, 0, 0, 0, 0, 6, 0, 0] := by
+      [0, 17, 0, 36, 0x21, 0x12, 0xa4, 0x42, 0, 0, 0, 0, 0, 0, 0, 0, 0, 0, 0, 0, 0, 6, 0, 0] := by
     decide
   rw [hP, flipBit_append _ _ _ (by decide)]
-  have hF : flipBit [0, 1, 0, 36, 0x21, 0x12, 0xa4, 0x42, 0, 0, 0, 0, 0, 0, 0, 0, 0, 0, 0, 0, 0, 6, 0, 0] 189 =
-      [0, 1, 0, 36, 0x21, 0x12, 0xa4, 0x42, 0, 0, 0, 0, 0, 0, 0, 0, 0, 0, 0, 0, 0, 6, 0, 32] := by
+  have hF : flipBit [0, 17, 0, 36, 0x21, 0x12, 0xa4, 0x42, 0, 0, 0, 0, 0, 0, 0, 0, 0, 0, 0, 0, 0, 6, 0, 0] 189 =
+      [0, 17, 0, 36, 0x21, 0x12, 0xa4, 0x42, 0, 0, 0, 0, 0, 0, 0, 0, 0, 0, 0, 0, 0, 6, 0, 32] := by
     decide
   rw [hF]
-  unfold decode decodeX decodeFrom
-  simp only [List.cons_append, List.nil_append, List.length_cons, hlenR, Stun.headerSize]
-  simp only [rdU16, rdU32, rdResize]
-  simp [Msg.fresh, Stun.idSize, zeros]
-  rw [loop_last H _ [1] 36 0 _ _ _ _ _ (by decide) (by show 0 + 4 + 32 ≤ 36; decide)
-    (by show attrStep H _ [1] 0 Stun.username 32 _ _ none = _
-        rw [attrStep_username]; rfl) (by show 36 ≤ 0 + (4 + 32 + pad4 32); decide)]
-  rfl
+  have hx : (decodeX H ([0, 17, 0, 36, 0x21, 0x12, 0xa4, 0x42, 0, 0, 0, 0, 0, 0, 0, 0, 0, 0, 0, 0, 0, 6, 0, 32] ++ R) [1]).isSome = true := by
+    unfold decodeX decodeFrom
+    simp only [List.cons_append, List.nil_append, List.length_cons, hlenR, Stun.headerSize]
+    simp only [rdU16, rdU32, rdResize]
+    simp [Msg.fresh, Stun.idSize, zeros]
+    rw [loop_last H _ [1] 36 0 _ _ _ _ _ (by decide) (by show 0 + 4 + 32 ≤ 36; decide)
+      (by show attrStep H _ [1] 0 Stun.username 32 _ _ none = _
+          rw [attrStep_username]; rfl) (by show 36 ≤ 0 + (4 + 32 + pad4 32); decide)]
+    rfl
+  have hc : exemptClass (rdU16 ([0, 17, 0, 36, 0x21, 0x12, 0xa4, 0x42, 0, 0, 0, 0, 0, 0, 0, 0, 0, 0, 0, 0, 0, 6, 0, 32] ++ R)).1 = true := by
+    show exemptClass 17 = true
+    decide
+  unfold decode
+  cases hd : decodeX H ([0, 17, 0, 36, 0x21, 0x12, 0xa4, 0x42, 0, 0, 0, 0, 0, 0, 0, 0, 0, 0, 0, 0, 0, 6, 0, 32] ++ R) [1] with
+  | none => rw [hd] at hx; simp at hx
+  | some d => simp only [hc, or_true, if_true, Option.isSome_some]
 
 /-! ## where MESSAGE-INTEGRITY and FINGERPRINT sit in an encoded packet -/
 
@@ -1639,12 +1647,11 @@ theorem flipBit_append_right (a r : Bytes) (i : Nat) (h : a.length ≤ i / 8) :
     rw [this]
   · rw [List.length_drop, flipBit_length, List.length_append]; omega
 
-/-- **Flips behind MESSAGE-INTEGRITY (in the FINGERPRINT attribute) cannot change the authenticated message**: the
-result is a rejection or the original message; no hypothesis about the hash. -/
-theorem tamper_after_mi_aux (H : Bytes → Bytes) (hH : ∀ x, (H x).length = 20) (m : Msg) (h : WFMsg m)
+/-- flips behind MESSAGE-INTEGRITY (in the FINGERPRINT attribute): rejected, or the original message with integrity verified -/
+theorem tamper_after_mi_decodeX (H : Bytes → Bytes) (hH : ∀ x, (H x).length = 20) (m : Msg) (h : WFMsg m)
     (k : Bytes) (hk : k ≠ []) (i : Nat) (hi : Stun.headerSize + (body m).length + 24 ≤ i / 8) :
-    decodeAuth H (flipBit (encodeRaw H m k true) i) k = none ∨
-    decodeAuth H (flipBit (encodeRaw H m k true) i) k = some (view m) := by
+    decodeX H (flipBit (encodeRaw H m k true) i) k = none ∨
+    ∃ d, decodeX H (flipBit (encodeRaw H m k true) i) k = some d ∧ d.msg = view m ∧ d.miAt.isSome = true := by
   have hid := h.id
   have hsz := h.size
   rw [encode_key_fp H hH m k hk hid]
@@ -1670,14 +1677,24 @@ theorem tamper_after_mi_aux (H : Bytes → Bytes) (hH : ∀ x, (H x).length = 20
   have hmi : miAttr H m k ++ r' =
       putU16 Stun.messageIntegrity ++ (putU16 20 ++ (hmacCode H 64 k (framed m ((body m).length + 24)) ++ r')) := by
     simp [miAttr, List.append_assoc]
-  unfold decodeAuth
   rw [e, s, hmi, l]
   cases hl : loop H buf k ((body m).length + 32) (0 + (body m).length + 24) r' (view m) (some (0 + (body m).length)) with
   | none => left; rfl
   | some d =>
     right
     have := loop_after_integrity H buf k _ _ _ _ _ _ d rfl hl
-    simp [this.1, this.2]
+    exact ⟨d, rfl, this.1, by simp [this.2]⟩
+
+/-- **Flips behind MESSAGE-INTEGRITY (in the FINGERPRINT attribute) cannot change the authenticated message**: the
+result is a rejection or the original message; no hypothesis about the hash. -/
+theorem tamper_after_mi_aux (H : Bytes → Bytes) (hH : ∀ x, (H x).length = 20) (m : Msg) (h : WFMsg m)
+    (k : Bytes) (hk : k ≠ []) (i : Nat) (hi : Stun.headerSize + (body m).length + 24 ≤ i / 8) :
+    decodeAuth H (flipBit (encodeRaw H m k true) i) k = none ∨
+    decodeAuth H (flipBit (encodeRaw H m k true) i) k = some (view m) := by
+  unfold decodeAuth
+  rcases tamper_after_mi_decodeX H hH m h k hk i hi with h0 | ⟨d, hd, hm, hmi⟩
+  · left; rw [h0]
+  · right; rw [hd]; simp [hm, hmi]
 
 /-! ## messages too large for the 16-bit length fields -/
 
@@ -1748,5 +1765,191 @@ theorem crcTable_spec (bs : Bytes) : crc32TableList crcTable bs = crc32Bitwise b
 
 theorem fingerprintOf_spec (bs : Bytes) : fingerprintOf bs = (crc32Bitwise bs).toNat ^^^ 0x5354554e := by
   simp only [fingerprintOf, crcCode, crcTable_spec, Stun.fingerprintXor]
+
+/-! ## the gate at the end of decode (/repo commit 80bab8b) -/
+
+/-- with a key, the encoded packet is header+attributes, MESSAGE-INTEGRITY, and `rest` (nothing or FINGERPRINT) -/
+theorem encodeRaw_key_shape (H : Bytes → Bytes) (hH : ∀ x, (H x).length = 20) (m : Msg) (k : Bytes) (hk : k ≠ [])
+    (hid : m.id.length = 12) (fp : Bool) :
+    ∃ rest, encodeRaw H m k fp = framed m ((body m).length + 24 + rest.length) ++ (miAttr H m k ++ rest) ∧
+      rest.length = if fp then 8 else 0 := by
+  cases fp with
+  | false => exact ⟨[], by rw [encode_key_nofp H hH m k hk hid]; simp, rfl⟩
+  | true =>
+    refine ⟨fpAttr (framed m ((body m).length + 32) ++ miAttr H m k), ?_, by simp [fpAttr_len]⟩
+    rw [encode_key_fp H hH m k hk hid, fpAttr_len, List.append_assoc]
+
+/-- the loop in front of a MESSAGE-INTEGRITY attribute whose 20 bytes are NOT the code's HMAC of the adjusted prefix fails -/
+theorem loop_mi_fail (H : Bytes → Bytes) (buf key : Bytes) (len done : Nat) (mac rest : Bytes) (y : Msg) (hlt : done < len)
+    (hb : done + 24 ≤ len) (hk : key ≠ [])
+    (hmac : mac ≠ hmacCode H 64 key (setLen (buf.take (Stun.headerSize + done)) (done + Stun.miAdjust)))
+    (hl : mac.length = 20) :
+    loop H buf key len done (putU16 Stun.messageIntegrity ++ (putU16 20 ++ (mac ++ rest))) y none = none := by
+  rw [loop]
+  have e := rdRaw_append mac rest
+  rw [hl] at e
+  have hb' : ¬ (done + 4 + 20 > len) := by omega
+  simp only [hlt, dite_true, rdU16_put _ _ (show Stun.messageIntegrity < 65536 by decide),
+    rdU16_put _ _ (show 20 < 65536 by decide), hb', Option.isSome_none, Bool.false_eq_true, false_and, if_false,
+    attrStep_mi, stepMI, e, ne_eq, hk, not_false_eq_true, hmac, and_self, if_true, not_true_eq_false, ite_self]
+
+
+theorem putU16_of_bytes (a b : UInt8) : putU16 (a.toNat * 256 + b.toNat) = [a, b] := by
+  have ha := a.toNat_lt; have hb := b.toNat_lt
+  simp only [putU16, List.cons.injEq, and_true]
+  constructor
+  · apply UInt8.toNat_inj.mp; rw [u8n]; omega
+  · apply UInt8.toNat_inj.mp; rw [u8n]; omega
+
+theorem miValueAt_framed (H : Bytes → Bytes) (hH : ∀ x, (H x).length = 20) (m m' : Msg) (k rest : Bytes) (L : Nat)
+    (hid : m'.id.length = 12) (hb : body m' = body m) :
+    miValueAt (framed m' L ++ (miAttr H m k ++ rest)) (body m).length = hmacCode H 64 k (framed m ((body m).length + 24)) := by
+  unfold miValueAt
+  have : Stun.headerSize + (body m).length + 4 = (framed m' L).length + 4 := by rw [framed_len m' L hid, hb]; rfl
+  rw [this, ← List.drop_drop, List.drop_left]
+  have e := rdRaw_append (hmacCode H 64 k (framed m ((body m).length + 24))) rest
+  rw [hmacCode_len H hH] at e
+  simp only [miAttr, List.append_assoc, putU16]
+  simpa using congrArg Prod.fst e
+
+/-- a flipped bit in the two type bytes: the walk is the same, MESSAGE-INTEGRITY is reached where it was, and its
+check fails unless the packet is a forgery — so such a packet is rejected outright -/
+theorem tamper_type_bytes_none (H : Bytes → Bytes) (hH : ∀ x, (H x).length = 20) (m : Msg) (h : WFMsg m)
+    (k : Bytes) (hk : k ≠ []) (fp : Bool) (i : Nat) (hi : i / 8 < 2)
+    (hNF : NotAForgery H k (miInputAt (encodeRaw H m k fp) (body m).length) (flipBit (encodeRaw H m k fp) i)) :
+    decodeX H (flipBit (encodeRaw H m k fp) i) k = none := by
+  have hid := h.id
+  have hsz := h.size
+  obtain ⟨rest, hshape, hrest⟩ := encodeRaw_key_shape H hH m k hk hid fp
+  have hrl : rest.length ≤ 8 := by rw [hrest]; split <;> omega
+  rw [hshape] at hNF ⊢
+  generalize hL : (body m).length + 24 + rest.length = L at *
+  -- the flipped type field
+  have hfr : framed m L = putU16 m.type ++ (putU16 L ++ (putU32 m.cookie ++ (m.id ++ body m))) := rfl
+  rw [hfr, List.append_assoc, flipBit_append _ _ _ (by rw [putU16_len]; exact hi)] at hNF ⊢
+  have hfl := flipBit_length (putU16 m.type) i
+  have hne : flipBit (putU16 m.type) i ≠ putU16 m.type := by
+    intro he
+    have := flipBit_same (putU16 m.type) i (by rw [putU16_len]; exact hi)
+    rw [he] at this; exact this rfl
+  match hft : flipBit (putU16 m.type) i, hfl with
+  | [a, b], _ =>
+    rw [hft] at hne hNF
+    rw [← putU16_of_bytes a b] at hne hNF ⊢
+    generalize ht' : a.toNat * 256 + b.toNat = t' at *
+    have ht'lt : t' < 65536 := by have := a.toNat_lt; have := b.toNat_lt; omega
+    -- the message with that type
+    have hwf' : WFFields { m with type := t' } :=
+      ⟨ht'lt, h.cookie, h.id, h.mapped, h.source, h.changed, h.other, h.xorMapped, h.xorPeer, h.xorRelayed,
+        h.changeRequest, h.errLo, h.errHi, h.errNone, h.priority, h.channelNumber, h.lifetime, h.requestedTransport,
+        h.reservationToken, h.iceControlling, h.iceControlled⟩
+    have hbody : body { m with type := t' } = body m := rfl
+    have hb'eq : putU16 t' ++ (putU16 L ++ (putU32 m.cookie ++ (m.id ++ body m)) ++ (miAttr H m k ++ rest)) =
+        framed { m with type := t' } L ++ (miAttr H m k ++ rest) := by
+      show _ = (putU16 t' ++ (putU16 L ++ (putU32 m.cookie ++ (m.id ++ body m)))) ++ (miAttr H m k ++ rest)
+      simp only [List.append_assoc]
+    rw [hb'eq] at hNF ⊢
+    have hb0eq : putU16 m.type ++ (putU16 L ++ (putU32 m.cookie ++ (m.id ++ body m)) ++ (miAttr H m k ++ rest)) =
+        framed m L ++ (miAttr H m k ++ rest) := by
+      show _ = (putU16 m.type ++ (putU16 L ++ (putU32 m.cookie ++ (m.id ++ body m)))) ++ (miAttr H m k ++ rest)
+      simp only [List.append_assoc]
+    rw [hb0eq] at hNF
+    generalize hbuf : framed { m with type := t' } L ++ (miAttr H m k ++ rest) = buf at *
+    have e := decodeX_framed H { m with type := t' } L (miAttr H m k ++ rest) k ht'lt h.cookie hid (by omega)
+      (by rw [hbody, List.length_append, miAttr_len H hH]; omega)
+    rw [hbuf] at e
+    have s := steps_body { m with type := t' } hwf' H buf k L 0 (miAttr H m k ++ rest) (by omega)
+      (by rw [hbody, List.length_append, List.length_append, miAttr_len H hH]; omega)
+    rw [e, s, hbody]
+    -- MESSAGE-INTEGRITY is reached at the old place and does not verify
+    have hin : miInputAt buf (body m).length = framed { m with type := t' } ((body m).length + 24) := by
+      unfold miInputAt
+      have := take_framed { m with type := t' } L (miAttr H m k ++ rest) hid
+      rw [hbody, hbuf] at this
+      rw [this]
+      have := setLen_framed { m with type := t' } L ((body m).length + Stun.miAdjust) []
+      simp only [List.append_nil] at this
+      rw [this]; rfl
+    have hx0 : miInputAt (framed m L ++ (miAttr H m k ++ rest)) (body m).length = framed m ((body m).length + 24) := by
+      unfold miInputAt
+      rw [take_framed m L _ hid]
+      have := setLen_framed m L ((body m).length + Stun.miAdjust) []
+      simp only [List.append_nil] at this
+      rw [this]; rfl
+    have hval : miValueAt buf (body m).length = hmacCode H 64 k (framed m ((body m).length + 24)) := by
+      rw [← hbuf]; exact miValueAt_framed H hH m { m with type := t' } k rest L hid hbody
+    have hdiff : framed { m with type := t' } ((body m).length + 24) ≠ framed m ((body m).length + 24) := by
+      intro he
+      apply hne
+      have := congrArg (List.take 2) he
+      simpa [framed, putU16] using this
+    have hnf := hNF (body m).length (by rw [hin, hx0]; exact hdiff)
+    rw [hin, hval] at hnf
+    have hmi : miAttr H m k ++ rest =
+        putU16 Stun.messageIntegrity ++ (putU16 20 ++ (hmacCode H 64 k (framed m ((body m).length + 24)) ++ rest)) := by
+      simp [miAttr, List.append_assoc]
+    rw [hmi]
+    apply loop_mi_fail H buf k L (0 + (body m).length) _ rest _ (by omega) (by omega) hk ?_ (hmacCode_len H hH _ _ _)
+    intro he
+    have hin' : setLen (buf.take (Stun.headerSize + (0 + (body m).length))) (0 + (body m).length + Stun.miAdjust) =
+        framed { m with type := t' } ((body m).length + 24) := by
+      rw [Nat.zero_add]; exact hin
+    rw [hin'] at he
+    exact hnf he.symm
+
+
+theorem rdU16_fst_of_bytes (a b : Bytes) (ha : 2 ≤ a.length) (hb : 2 ≤ b.length) (h0 : a[0]? = b[0]?) (h1 : a[1]? = b[1]?) :
+    (rdU16 a).1 = (rdU16 b).1 := by
+  match a, b, ha, hb with
+  | a0 :: a1 :: ar, b0 :: b1 :: br, _, _ =>
+    simp only [List.getElem?_cons_zero, List.getElem?_cons_succ, Option.some.injEq] at h0 h1
+    simp only [rdU16, h0, h1]
+
+theorem decodeStrict_encode (H : Bytes → Bytes) (hH : ∀ x, (H x).length = 20) (m : Msg) (h : WFMsg m) (k : Bytes)
+    (fp : Bool) : decode H (encodeRaw H m k fp) k = some (view m) := by
+  unfold decode
+  rw [decodeX_encode H hH m h k fp]
+  by_cases hk : k = [] <;> simp [hk]
+
+/-- **Strict decode rejects every single-bit flip of the protected bytes and of MESSAGE-INTEGRITY** of a request or
+success response; only hypothesis: the flipped packet is not a forgery. -/
+theorem tamper_rejected_strict_aux (H : Bytes → Bytes) (hH : ∀ x, (H x).length = 20) (m : Msg) (h : WFMsg m)
+    (k : Bytes) (hk : k ≠ []) (fp : Bool) (i : Nat)
+    (hi : i / 8 < Stun.headerSize + (body m).length + 24) (hcls : exemptClass m.type = false)
+    (hNF : NotAForgery H k (miInputAt (encodeRaw H m k fp) (body m).length) (flipBit (encodeRaw H m k fp) i)) :
+    decode H (flipBit (encodeRaw H m k fp) i) k = none := by
+  by_cases ht : i / 8 < 2
+  · unfold decode
+    rw [tamper_type_bytes_none H hH m h k hk fp i ht hNF]
+  · unfold decode
+    cases hd : decodeX H (flipBit (encodeRaw H m k fp) i) k with
+    | none => rfl
+    | some d =>
+      cases hmi : d.miAt with
+      | some off =>
+        have := tamper_verified_is_forgery_aux H hH m h k hk fp i hi d off hd hmi
+        exact absurd this.2 (hNF off this.1)
+      | none =>
+        have hL := encode_length H hH m h.id k fp
+        have hty : (rdU16 (flipBit (encodeRaw H m k fp) i)).1 = m.type := by
+          have e := rdU16_fst_of_bytes (flipBit (encodeRaw H m k fp) i) (encodeRaw H m k fp)
+            (by rw [flipBit_length, hL]; simp only [Stun.headerSize]; omega)
+            (by rw [hL]; simp only [Stun.headerSize]; omega)
+            (flipBit_other _ _ 0 (by omega)) (flipBit_other _ _ 1 (by omega))
+          rw [e]
+          obtain ⟨rest, hshape, _⟩ := encodeRaw_key_shape H hH m k hk h.id fp
+          rw [hshape]
+          show (rdU16 (putU16 m.type ++ _ ++ _)).1 = m.type
+          rw [List.append_assoc, rdU16_put _ _ h.type]
+        simp [hk, hmi, hty, hcls]
+
+theorem tamper_after_mi_strict_aux (H : Bytes → Bytes) (hH : ∀ x, (H x).length = 20) (m : Msg) (h : WFMsg m)
+    (k : Bytes) (hk : k ≠ []) (i : Nat) (hi : Stun.headerSize + (body m).length + 24 ≤ i / 8) :
+    decode H (flipBit (encodeRaw H m k true) i) k = none ∨
+    decode H (flipBit (encodeRaw H m k true) i) k = some (view m) := by
+  unfold decode
+  rcases tamper_after_mi_decodeX H hH m h k hk i hi with h0 | ⟨d, hd, hm, hmi⟩
+  · left; rw [h0]
+  · right; rw [hd]; simp [hm, hmi]
 
 end Qx.C14
